@@ -46,12 +46,21 @@ def _integer_ppf(distribution, q, *args):
         low = lower
         step = 1
         high = low + step
-        while distribution._cdf(high, *args) < q:
+        cdf_low = distribution._cdf(low, *args)
+        cdf_high = distribution._cdf(high, *args)
+        while cdf_high < q:
             if high >= upper or step > 2**60:
                 return high
+            if step > 1 and 0 < cdf_high <= cdf_low:
+                # The cumulative probability does not grow anymore: `q` is above the total
+                # probability of a distribution, that is not normalized (the Schulz-Zimm density
+                # evaluated at the integers). Doubling further only exhausts the memory.
+                break
             low = high
+            cdf_low = cdf_high
             step *= 2
             high = low + step
+            cdf_high = distribution._cdf(high, *args)
         while high - low > 1:
             mid = (low + high) // 2
             if distribution._cdf(mid, *args) < q:
